@@ -6,5 +6,6 @@ INVARIANT ATypeOK
 INVARIANT AStateAgrees
 INVARIANT AUnfilteredEverywhere
 INVARIANT ANoneMeansNoMay
+INVARIANT CacheIrrelevant
 INVARIANT AExport
 CHECK_DEADLOCK FALSE
